@@ -168,3 +168,33 @@ package receiver
 //@   requires [sorted] sortedByName(fileList)
 //@   modifies *, ghost.removed, ghost.renames, ghost.acc, ghost.cleaned, ghost.created, ghost.lastPending, ghost.objClock, ghost.int32sWritten, ghost.mtimeSec, ghost.perm, ghost.uid, ghost.gid
 //@   ensures[C09] [no-delete-without-option] !old(rt.Opts.DeleteMode) ==> ghost.removed == old(ghost.removed)
+
+// ---------------------------------------------------------------- C04: removals
+// An existing entry is unlinked only to make room for an entry of a
+// different type (directory over non-directory, regular file over
+// non-regular); --delete removes extraneous (unlisted) entries.
+//@ func (*receiver.Transfer).recvGenerator
+//@   allows[C04] fsunlink(h) if h == rt.DestRoot && entryExists(rt.DestRoot, f.Name) && (mod(div(f.Mode, 4096), 16) == 4 && !modeIsDir(infoMode(destInfo(rt, f))) || mod(div(f.Mode, 4096), 16) != 4 && !modeIsRegular(infoMode(destInfo(rt, f))))
+//@ func (*receiver.Transfer).GenerateFiles
+//@   allows[C04] fsunlink(h) if h == rt.DestRoot
+//@ func (*receiver.Transfer).deleteFiles$1
+//@   allows[C04] fsunlink(h) if h == rt.DestRoot
+//@ func (*receiver.Transfer).deleteFiles
+//@   allows[C04] fsunlink(h) if h == rt.DestRoot
+//@ func (*receiver.Transfer).Do
+//@   allows[C04] fsunlink(h) if h == rt.DestRoot
+
+// ---------------------------------------------------------------- C11: directories, times
+// Directories lacking owner write permission are created writable and
+// re-permissioned at the end: the retouch flag is sticky.
+//@ func (*receiver.Transfer).recvGenerator
+//@   ensures[C11] [retouch-flag-sticky] old(rt.retouchDirPerms) ==> rt.retouchDirPerms
+//@   ensures[C11] [retouch-flag-set] err == nil && old(rt.Dest) != "" && !old(rt.Opts.DryRun) && 0 <= old(f.Mode) && mod(div(old(f.Mode), 4096), 16) == 4 && mod(div(old(f.Mode), 128), 2) == 0 ==> rt.retouchDirPerms
+//@ func (*receiver.Transfer).GenerateFiles
+//@   modifies *, ghost.int32sWritten, ghost.acc, ghost.objClock, ghost.mtimeSec, ghost.perm, ghost.uid, ghost.gid
+//@   ensures[C11] [retouch-flag-sticky] old(rt.retouchDirPerms) ==> rt.retouchDirPerms
+//@   loop[C11] 0: invariant old(rt.retouchDirPerms) ==> rt.retouchDirPerms
+
+// The modification time on the wire is a signed 32-bit count of seconds.
+//@ func (*receiver.Transfer).receiveFileEntry
+//@   at[C11] time.Unix: assert [mtime-signed-32] arg0 == modTime && arg1 == 0
